@@ -1851,17 +1851,15 @@ Octagonal_Shape<T>::max_min(const Linear_Expression& expr,
   if (marked_empty()) {
     return false;
   }
-  if (!is_universe()) {
-    // We use MIP_Problems to handle constraints that are not
-    // octagonal difference.
-    Optimization_Mode max_min = (maximize) ? MAXIMIZATION : MINIMIZATION;
-    MIP_Problem mip(space_dim, constraints(), expr, max_min);
-    if (mip.solve() == OPTIMIZED_MIP_PROBLEM) {
-      g = mip.optimizing_point();
-      mip.evaluate_objective_function(g, ext_n, ext_d);
-      included = true;
-      return true;
-    }
+  // We use MIP_Problems to handle constraints that are not
+  // octagonal difference.
+  Optimization_Mode max_min = (maximize) ? MAXIMIZATION : MINIMIZATION;
+  MIP_Problem mip(space_dim, constraints(), expr, max_min);
+  if (mip.solve() == OPTIMIZED_MIP_PROBLEM) {
+    g = mip.optimizing_point();
+    mip.evaluate_objective_function(g, ext_n, ext_d);
+    included = true;
+    return true;
   }
   // The `expr' is unbounded.
   return false;
